@@ -417,6 +417,69 @@ impl RoundTrips {
     }
 }
 
+// ---- string() is injective: a representation determines the value ---------------------------
+
+fn injective_grids() -> Vec<(&'static str, Vec<V>)> {
+    let mut durs = Vec::new();
+    for ns in [0i128, 1, 999, 1_000, 1_500, 999_999, 1_000_000, 1_500_000, 999_999_999, NS, NS + 1, 90 * NS, 3600 * NS, 86_400 * NS + 1_000] {
+        durs.push(V::Dur(ns));
+        if ns != 0 {
+            durs.push(V::Dur(-ns));
+        }
+    }
+    let mut tss = Vec::new();
+    for s in [0i128, 1_700_000_000, -1, 253_402_300_799] {
+        for n in [0i128, 1, 1_000, 1_500_000, 123_456_789, 999_999_999] {
+            tss.push(V::Ts(s * NS + n));
+        }
+    }
+    vec![
+        ("duration", durs),
+        ("timestamp", tss),
+        ("int", int_grid(Tier::Quick).into_iter().map(V::Int).collect()),
+        ("uint", uint_grid(Tier::Quick).into_iter().map(V::UInt).collect()),
+        ("double", dbl_grid(Tier::Quick).into_iter().filter(|d| !d.is_nan()).map(V::Dbl).collect()),
+    ]
+}
+
+fn run_injective(idx: u64, acc: &mut Acc) {
+    let grids = injective_grids();
+    let (name, g) = &grids[idx as usize];
+    let mut seen: Vec<(String, &V)> = Vec::new();
+    for v in g {
+        let got = real::eval("string(x)", &[("x", v.clone())]);
+        acc.eval();
+        acc.class(&got.class());
+        let text = match got.value() {
+            Some(V::Str(s)) => s,
+            _ => {
+                // string() of this type is not fixed by the statement when it fails; a panic is
+                if got.is_panic() {
+                    acc.violation(&format!("string({}) panic", name), json!({"x": v.show()}), "a string or an error".into(), got.show());
+                }
+                continue;
+            }
+        };
+        for (t, w) in &seen {
+            // -0.0 and 0.0 are different doubles but the same number: not demanded to differ
+            let same_number = matches!((v, w), (V::Dbl(a), V::Dbl(b)) if a == b);
+            if *t == text && !w.same(v) && !same_number {
+                acc.violation(
+                    &format!("string({}) maps-different-values-to-the-same-text", name),
+                    json!({"first": w.show(), "second": v.show(), "text": text}),
+                    "distinct values have distinct renderings".into(),
+                    format!("both render as {:?}", text),
+                );
+            }
+        }
+        seen.push((text, v));
+    }
+    acc.nontrivial(&("injective", idx));
+    if acc.wants_sample() {
+        acc.sample(json!({"type": name, "renderings": seen.iter().take(6).map(|(t, v)| json!([v.show(), t])).collect::<Vec<_>>()}));
+    }
+}
+
 // ---- f-strings ---------------------------------------------------------------------
 
 /// (text inside the f-string, equivalent concatenation term, embedded?)
@@ -457,6 +520,10 @@ fn segments() -> Vec<(&'static str, &'static str)> {
         ("{true}", "string(true)"),
         ("{1 / 0}", "string(1 / 0)"),
         ("{int}", "string(int)"),
+        // string literals with escaped quotes inside the embedded expression
+        ("{'q\\'q'}", "string('q\\'q')"),
+        ("{s + '\\''}", "string(s + '\\'')"),
+        ("{'\\'' + 'a\\'b\\'c'}", "string('\\'' + 'a\\'b\\'c')"),
     ]
 }
 
@@ -493,6 +560,11 @@ impl FStrings {
             if inside == "Q" {
                 body.push_str(other);
                 terms.push(if other == "'" { "\"'\"".to_string() } else { "'\"'".to_string() });
+            } else if inside.contains("\\'") && quote == '\'' {
+                // an escaped quote inside the embedded expression: only generated for the other
+                // delimiter (swapping the quotes would change the spelled value)
+                body.push('a');
+                terms.push("'a'".to_string());
             } else if inside.contains('\'') && quote == '\'' {
                 // an embedded expression with a string literal: use the other quote inside
                 body.push_str(&inside.replace('\'', "\""));
@@ -543,12 +615,13 @@ pub fn replay_families(t: Tier) -> Vec<Family<'static>> {
         Family::new("conversions", c.size(), move |i, a| c.run(i, a)),
         Family::new("roundtrips", r.size(), move |i, a| r.run(i, a)),
         Family::new("fstrings", f.size(), move |i, a| f.run(i, a)),
+        Family::new("string-injective", injective_grids().len() as u64, run_injective),
     ]
 }
 
 pub fn run(t: Tier) -> i32 {
     let mut rep = Report::new(ID, t, "exploration");
-    rep.rule = "conversions: every value of the numeric boundary grid, a string grid (decimal and exponent renderings of every grid number, signs, blanks, separators, non-ASCII digits, out-of-range digit strings, bool literals, timestamps, durations), bytes (valid and invalid UTF-8), and one value of every other type x the 10 constructors, bound and literal, against the reference conversion (Unspecified where the property does not fix the answer) plus type(T(x)) == T; roundtrips: int(string(i))==i, uint(string(u))==u, double(string(d))==d over the dense grids and all exponents, string(bytes(s))==s, evaluated inside CEL; fstrings: all sequences of 1..N segments over 34 segment kinds (literal text, doubled braces, quotes, embedded variables and embedded compile-time constants of every type)
+    rep.rule = "conversions: every value of the numeric boundary grid, a string grid (decimal and exponent renderings of every grid number, signs, blanks, separators, non-ASCII digits, out-of-range digit strings, bool literals, timestamps, durations), bytes (valid and invalid UTF-8), and one value of every other type x the 10 constructors, bound and literal, against the reference conversion (Unspecified where the property does not fix the answer) plus type(T(x)) == T; roundtrips: int(string(i))==i, uint(string(u))==u, double(string(d))==d over the dense grids and all exponents, string(bytes(s))==s, evaluated inside CEL; string-injective: string() over grids of durations and timestamps down to one nanosecond, ints, uints and doubles never maps two different values to the same text; fstrings: all sequences of 1..N segments over 37 segment kinds (literal text, doubled braces, quotes, embedded variables and embedded compile-time constants of every type)
  x both quotes compared with the concatenation of literal parts and string(e) evaluated by the implementation. Non-trivial = outcome fixed by the property; distinct by index".to_string();
     for f in replay_families(t) {
         rep.run_family(f);
